@@ -110,7 +110,7 @@ async fn main() {
             let app = Router::new().route("/validate", post(f_ok)).route("/consts", post(f_ok)).route("/run", post(f_run)).route("/msg/{id}/{from}", post(f_msg)).with_state(fake.clone());
             let l = tokio::net::TcpListener::bind("127.0.0.1:0").await.expect("bind"); let fake_url = Url::parse(&format!("http://{}", l.local_addr().unwrap())).unwrap(); let srv_task = tokio::spawn(async move { axum::serve(l, app).await.unwrap() });
             let leader_url = start_servers(1, conc).await.remove(0); let parts = vec![leader_url.clone(), fake_url];
-            let client = reqwest::Client::builder().timeout(Duration::from_secs(20)).build().unwrap();
+            let client = reqwest::Client::builder().timeout(Duration::from_secs(60)).build().unwrap();
             let ids: Vec<Uuid> = (0..=k).map(|j| Uuid::from_u128(0x7000 + (case * 16 + j) as u128 + ((seed as u128) << 32))).collect(); let mut bad: Vec<String> = vec![];
             let mk = |j: usize| { let mut p = policy(&parts, 0, 0, &out_url, ids[j], P2); if !with_dest { p.output = None; } p };
             for j in 0..k { let st = client.post(leader_url.join("schedule").unwrap()).json(&mk(j)).send().await.map(|r| r.status().as_u16()).unwrap_or(0); if st != 200 { bad.push(format!("schedule call {j} answered {st}")); } }
@@ -149,13 +149,13 @@ async fn main() {
             let victim = if when == "follower-waits" { 1 - leader } else { victim };
             let cancels: Vec<Cancel> = (0..n).map(|_| Cancel::new()).collect(); let parts = start_servers_c(n, 1, &cancels).await;
             let id = Uuid::from_u128(0x5000 + case as u128 + ((seed as u128) << 32)); let prog = if when == "after-the-result" { P2 } else { P2BIG };
-            let ctx = Arc::new(Ctx { client: reqwest::Client::builder().timeout(Duration::from_secs(20)).build().unwrap(), parts: parts.clone(), out: out_url.clone(), obs: Mutex::new(vec![]) });
+            let ctx = Arc::new(Ctx { client: reqwest::Client::builder().timeout(Duration::from_secs(60)).build().unwrap(), parts: parts.clone(), out: out_url.clone(), obs: Mutex::new(vec![]) });
             let sched = |p: usize| { let c = ctx.clone(); let pol = policy(&ctx.parts, p, leader, &ctx.out, id, prog); tokio::spawn(async move { c.post_json(p, "schedule", id, &pol).await }) };
             let mut bad: Vec<String> = vec![]; let mut tasks = vec![];
             match when {
                 "follower-waits" => { tasks.push(sched(victim)); if !wait_registered(&ctx, victim, id).await { bad.push("the follower never registered its computation".into()); } }
                 "under-way" => { let mut lt = None; for p in 0..n { let t = sched(p); if p == leader { lt = Some(t); } else { tasks.push(t); } }
-                    let _ = tokio::time::timeout(Duration::from_secs(25), lt.unwrap()).await; tokio::time::sleep(Duration::from_millis(r.below(40))).await; }
+                    let _ = tokio::time::timeout(Duration::from_secs(70), lt.unwrap()).await; tokio::time::sleep(Duration::from_millis(r.below(40))).await; }
                 _ => { for p in 0..n { tasks.push(sched(p)); } let t0 = Instant::now(); while outs.lock().unwrap().iter().filter(|(i, _, _)| *i == id).count() < n && t0.elapsed() < Duration::from_secs(20) { tokio::time::sleep(Duration::from_millis(10)).await; } tokio::time::sleep(Duration::from_millis(100)).await; }
             }
             let before: Vec<Value> = outs.lock().unwrap().iter().filter(|(i, q, _)| *i == id && *q == victim).map(|(_, _, v)| v.clone()).collect();
@@ -195,7 +195,7 @@ async fn main() {
         let n = if case % 5 == 3 { 3 } else { 2 }; let leader = (case / 2) % n; let stage = match case % 4 { 0 => 'A', 1 => 'B', 2 => 'U', _ => 'L' };
         let prog = if stage == 'B' { P2BIG } else if n == 3 { P3 } else if case % 5 == 0 { P2C } else { P2 }; let n = if prog == P2BIG { 2 } else { n }; let leader = leader % n;
         let id = Uuid::from_u128(0x1000 + case as u128 + ((seed as u128) << 32)); let idn = 0x1000 + case as u64;
-        let ctx = Arc::new(Ctx { client: reqwest::Client::builder().timeout(Duration::from_secs(20)).build().unwrap(), parts: parts_all[..n].to_vec(), out: out_url.clone(), obs: Mutex::new(vec![]) });
+        let ctx = Arc::new(Ctx { client: reqwest::Client::builder().timeout(Duration::from_secs(60)).build().unwrap(), parts: parts_all[..n].to_vec(), out: out_url.clone(), obs: Mutex::new(vec![]) });
         let follower = (leader + 1 + r.below(n as u64 - 1) as usize) % n; let mut bad: Vec<String> = vec![]; let mut stray_log = vec![];
         let sched = |p: usize| { let c = ctx.clone(); let pol = policy(&ctx.parts, p, leader, &ctx.out, id, prog); tokio::spawn(async move { c.post_json(p, "schedule", id, &pol).await }) };
         let mut tasks: Vec<(usize, tokio::task::JoinHandle<(u16, String)>)> = vec![];
@@ -228,7 +228,7 @@ async fn main() {
             _ => {
                 // all parties scheduled; as soon as the leader's schedule call has returned (everybody validated) stray requests hit a victim while run / constants / MPC proceed
                 let mut lt = None; for p in 0..n { let t = sched(p); if p == leader { lt = Some(t); } else { tasks.push((p, t)); } }
-                let lres = tokio::time::timeout(Duration::from_secs(25), lt.unwrap()).await.map(|x| x.unwrap()).unwrap_or((0, "no response".into())); if lres.0 != 200 { bad.push(format!("leader's schedule answered {} {}", lres.0, lres.1)); }
+                let lres = tokio::time::timeout(Duration::from_secs(70), lt.unwrap()).await.map(|x| x.unwrap()).unwrap_or((0, "no response".into())); if lres.0 != 200 { bad.push(format!("leader's schedule answered {} {}", lres.0, lres.1)); }
                 let victim = if (case / 3) % 2 == 0 { follower } else { leader }; let k = (case / 6) % strays_b.len();
                 for s in [strays_b[k], strays_b[(k + 1 + r.below(5) as usize) % strays_b.len()], strays_b[r.below(6) as usize]] {
                     let done_before = outs.lock().unwrap().iter().filter(|(i, _, _)| *i == id).count() > 0;
@@ -237,10 +237,10 @@ async fn main() {
                     if !done_before && !done_after && !allowed(s).contains(&st) { bad.push(format!("{s:?} at party {victim} during the run answered {st} {ty}, want one of {:?}", allowed(s))); } }
             }
         }
-        for (p, t) in tasks { match tokio::time::timeout(Duration::from_secs(30), t).await { Ok(Ok((st, ty))) => if st != 200 { bad.push(format!("schedule call of party {p} answered {st} {ty}")); }, _ => bad.push(format!("schedule call of party {p} did not return")) } }
+        for (p, t) in tasks { match tokio::time::timeout(Duration::from_secs(70), t).await { Ok(Ok((st, ty))) => if st != 200 { bad.push(format!("schedule call of party {p} answered {st} {ty}")); }, _ => bad.push(format!("schedule call of party {p} did not return")) } }
         // every destination gets exactly one result, the right one
         let t0 = Instant::now(); let want = expected(n, prog);
-        loop { let got = outs.lock().unwrap().iter().filter(|(i, _, _)| *i == id).count(); if got >= n || t0.elapsed() > Duration::from_secs(25) { break; } tokio::time::sleep(Duration::from_millis(10)).await; }
+        loop { let got = outs.lock().unwrap().iter().filter(|(i, _, _)| *i == id).count(); if got >= n || t0.elapsed() > Duration::from_secs(60) { break; } tokio::time::sleep(Duration::from_millis(10)).await; }
         tokio::time::sleep(Duration::from_millis(30)).await;
         for p in 0..n { let got: Vec<Value> = outs.lock().unwrap().iter().filter(|(i, q, _)| *i == id && *q == p).map(|(_, _, v)| v.clone()).collect();
             if got != vec![want.clone()] { bad.push(format!("destination of party {p} got {}, want one {want}", serde_json::to_string(&got).unwrap().chars().take(300).collect::<String>())); } }
